@@ -11,3 +11,8 @@ import Proofs.C09
 #print axioms Xsel.C09.namespace_events_are_declarations
 #print axioms Xsel.C09.every_element_has_xml_binding
 #print axioms Xsel.C09.namespace_nodes_belong_to_element
+#print axioms Xsel.C09.xml_query_refines_spec
+#print axioms Xsel.C09.xml_query_refines_spec_noRound
+#print axioms Xsel.C09.stream_query_refines_spec
+#print axioms Xsel.C09.json_events_ordered
+#print axioms Xsel.C09.json_query_refines_spec
